@@ -359,10 +359,10 @@ Proof.
   - destruct (tstate_eqb (st (th s x)) SLEEPING); inversion H; subst; li_frame L.
   - destruct all; inversion H; subst; li_frame L.
   - destruct (lk (th s k)); [discriminate|]. inversion H; subst. li_frame L.
-  - destruct (tstate_eqb (st (th s k)) SLEEPING); inversion H; subst; li_frame L.
+  - destruct (tstate_eqb (st (th s k)) SLEEPING && (0 <? e)); inversion H; subst; li_frame L.
   - destruct o; inversion H; subst; li_frame L.
   - destruct (tstate_eqb _ READY && (err (th s k) =? 0)); inversion H; subst; li_frame L.
-  - inversion H; subst. li_frame L.
+  - destruct (0 <? e); inversion H; subst; li_frame L.
 Qed.
 
 Lemma li_idle_decide s v cnt : li_same s (idle_decide s v cnt).
